@@ -221,6 +221,11 @@ impl UnixTerminal {
         ])
         .unwrap_or(()); // ignore write errors
 
+        // disable signal handler and forget signals flagged so far, a termination signal
+        // that has not been reported yet must not cut the wait for the epilogue short
+        self.signal_delivery.handle().close();
+        self.signal_delivery.pending().for_each(drop);
+
         // wait for device attributes report or error
         loop {
             match self.poll(Some(Duration::from_secs(1))) {
@@ -228,9 +233,6 @@ impl UnixTerminal {
                 _ => {}
             }
         }
-
-        // disable signal handler
-        self.signal_delivery.handle().close();
 
         // restore terminal settings
         rustix::termios::tcsetattr(
@@ -412,6 +414,12 @@ impl Terminal for UnixTerminal {
                 }
                 None => None,
             };
+            // never sleep while there is an event to deliver
+            let delay = if self.events_queue.is_empty() {
+                delay
+            } else {
+                Some(Duration::new(0, 0))
+            };
 
             let tty_write = PollEvent::new(&self.tty).with_writable(!self.write_queue.is_empty());
             self.poll.register(tty_write)?;
@@ -436,16 +444,25 @@ impl Terminal for UnixTerminal {
             // process pending output
             if tty.is_writable() {
                 let tee = self.tee.as_mut();
+                // bytes accepted by the tty are consumed even if copying them to the tee fails,
+                // otherwise they would be sent a second time by the next poll
+                let mut tee_result = Ok(());
                 let send = self.write_queue.consume_with(|slice| {
                     let size = guard_io(self.tty.write(slice), 0)?;
-                    tee.map(|tee| tee.write(&slice[..size])).transpose()?;
+                    if let Some(tee) = tee {
+                        tee_result = tee.write_all(&slice[..size]);
+                    }
                     Ok::<_, Error>(size)
                 })?;
                 self.stats.send += send;
+                tee_result?;
             }
 
             // process signals
             if signal.is_readable() {
+                // all flagged signals are consumed before a termination signal is reported,
+                // the signal pipe is already drained and would not announce them again
+                let mut quit = false;
                 for signal in self.signal_delivery.pending() {
                     match signal {
                         SIGWINCH => {
@@ -456,11 +473,12 @@ impl Terminal for UnixTerminal {
                                 self.write_all(GET_TERM_SIZE)?;
                             }
                         }
-                        SIGTERM | SIGINT | SIGQUIT => {
-                            return Err(Error::Quit);
-                        }
+                        SIGTERM | SIGINT | SIGQUIT => quit = true,
                         _ => {}
                     }
+                }
+                if quit {
+                    return Err(Error::Quit);
                 }
             }
 
@@ -503,6 +521,12 @@ impl Terminal for UnixTerminal {
 
             // indicate that first loop was executed
             first_loop = false;
+
+            // an event is ready and the tty takes no more output right now, deliver the
+            // event instead of waiting for the other side to drain the output
+            if !self.events_queue.is_empty() && !tty.is_writable() {
+                break;
+            }
         }
 
         Ok(self.events_queue.pop_front())
@@ -610,6 +634,31 @@ impl AsFd for Tty {
 
 impl Write for Tty {
     fn write(&mut self, buf: &[u8]) -> std::io::Result<usize> {
+        #[cfg(feature = "verif-hooks")]
+        if let Some(fault) = verif::next_write_fault() {
+            match fault {
+                verif::WriteFault::Pass => {}
+                verif::WriteFault::Short(n) => {
+                    let n = n.min(buf.len());
+                    if n < buf.len() {
+                        verif::count(0);
+                    }
+                    return rustix::io::write(self, &buf[..n]).map_err(std::io::Error::from);
+                }
+                verif::WriteFault::Zero => {
+                    verif::count(1);
+                    return Ok(0);
+                }
+                verif::WriteFault::WouldBlock => {
+                    verif::count(2);
+                    return Err(std::io::ErrorKind::WouldBlock.into());
+                }
+                verif::WriteFault::Interrupted => {
+                    verif::count(3);
+                    return Err(std::io::ErrorKind::Interrupted.into());
+                }
+            }
+        }
         rustix::io::write(self, buf).map_err(std::io::Error::from)
     }
 
@@ -777,5 +826,60 @@ impl PollEvents<'_> {
 
     pub fn len(&self) -> usize {
         self.matched.len()
+    }
+}
+
+/// Verification hooks (add-only, compiled only with the `verif-hooks` feature): a script of faults for
+/// the next calls of `Tty::write`, so that short writes, zero-byte writes, EAGAIN and EINTR of the tty can
+/// be forced at chosen points of a session.
+#[cfg(feature = "verif-hooks")]
+pub mod verif {
+    use std::collections::VecDeque;
+    use std::sync::Mutex;
+    use std::sync::atomic::{AtomicUsize, Ordering};
+
+    #[derive(Clone, Copy, Debug)]
+    pub enum WriteFault {
+        /// perform the write normally
+        Pass,
+        /// hand only the first `n` bytes of the slice to the tty
+        Short(usize),
+        /// report `Ok(0)` without writing
+        Zero,
+        /// fail with EAGAIN
+        WouldBlock,
+        /// fail with EINTR
+        Interrupted,
+    }
+
+    static SCRIPT: Mutex<VecDeque<WriteFault>> = Mutex::new(VecDeque::new());
+    static COUNTS: [AtomicUsize; 4] = [
+        AtomicUsize::new(0),
+        AtomicUsize::new(0),
+        AtomicUsize::new(0),
+        AtomicUsize::new(0),
+    ];
+
+    /// Faults for the next calls of `Tty::write`, one per call; afterwards writes are normal again
+    pub fn set_write_script(script: Vec<WriteFault>) {
+        *SCRIPT.lock().unwrap_or_else(|e| e.into_inner()) = script.into();
+    }
+
+    /// Number of short writes, zero-byte writes, EAGAIN and EINTR faults delivered so far
+    pub fn write_fault_counts() -> [usize; 4] {
+        [
+            COUNTS[0].load(Ordering::SeqCst),
+            COUNTS[1].load(Ordering::SeqCst),
+            COUNTS[2].load(Ordering::SeqCst),
+            COUNTS[3].load(Ordering::SeqCst),
+        ]
+    }
+
+    pub(super) fn next_write_fault() -> Option<WriteFault> {
+        SCRIPT.lock().unwrap_or_else(|e| e.into_inner()).pop_front()
+    }
+
+    pub(super) fn count(kind: usize) {
+        COUNTS[kind].fetch_add(1, Ordering::SeqCst);
     }
 }
